@@ -93,6 +93,58 @@ theorem parse_fmt (t : Stamp) (hv : t.valid = true) (hy : 1000 ≤ t.dt.year) : 
     exact ⟨⟨by omega, hy2, by omega, hmo, by omega, hd, hh, hmi, hs⟩, hus⟩
   rw [if_pos hv']
 
+theorem fmtIso_eq (t : Stamp) (hy : 1000 ≤ t.dt.year) : fmtIso t = fmtStamp t := by
+  unfold fmtIso fmtStamp; rw [toDec_big _ hy]
+
+theorem fmtIso_length (t : Stamp) : (fmtIso t).length = 26 := by
+  unfold fmtIso; simp [toDecW_length]
+
+/-- the ISO form (zero-padded year) is read back for *every* valid time stamp, years 1-9999 -/
+theorem parse_iso (t : Stamp) (hv : t.valid = true) : parseStamp (fmtIso t) = some t := by
+  have hlen := fmtIso_length t
+  unfold parseStamp
+  rw [if_neg (by omega)]
+  unfold fmtIso
+  simp only [List.append_assoc, List.cons_append]
+  unfold Stamp.valid DateTime.valid at hv
+  simp only [Bool.and_eq_true, decide_eq_true_eq] at hv
+  obtain ⟨⟨_, hy2, _, hmo, _, hd, hh, hmi, hs⟩, hus⟩ := hv
+  have hd31 : t.dt.day ≤ 31 := by
+    have : daysInMonth t.dt.year t.dt.month ≤ 31 := by unfold daysInMonth; split <;> (try split) <;> omega
+    omega
+  rw [takeDec_toDecW 4 _ _ (by omega) (by omega)]
+  simp only [Option.bind_some, expect, decide_true, if_true]
+  rw [takeDec_toDecW 2 _ _ (by omega) (by omega)]
+  simp only [Option.bind_some, expect, decide_true, if_true]
+  rw [takeDec_toDecW 2 _ _ (by omega) (by omega)]
+  simp only [Option.bind_some, expect, if_true]
+  rw [takeDec_toDecW 2 _ _ (by omega) (by omega)]
+  simp only [Option.bind_some, expect, decide_true, if_true]
+  rw [takeDec_toDecW 2 _ _ (by omega) (by omega)]
+  simp only [Option.bind_some, expect, decide_true, if_true]
+  rw [takeDec_toDecW 2 _ _ (by omega) (by omega)]
+  simp only [Option.bind_some, expect, decide_true, Bool.true_or, if_true]
+  have := takeDec_toDecW 6 t.us [] (by omega) (by omega)
+  rw [List.append_nil] at this
+  rw [this]
+  simp only [Option.bind_some]
+  have hv' : (⟨⟨t.dt.year, t.dt.month, t.dt.day, t.dt.hour, t.dt.minute, t.dt.second⟩, t.us⟩ : Stamp).valid = true := by
+    unfold Stamp.valid DateTime.valid
+    simp only [Bool.and_eq_true, decide_eq_true_eq]
+    exact ⟨⟨by omega, hy2, by omega, hmo, by omega, hd, hh, hmi, hs⟩, hus⟩
+  rw [if_pos hv']
+
+/-- **a saved-state entry restores to the same time stamp and the same text** (C16: the snapshot's own format) -/
+theorem snapEntry_restores (t : Stamp) (rest : List Char) (hv : t.valid = true) :
+    parseStamp (snapEntry t rest).1 = some t ∧ (snapEntry t rest).2 = rest := by
+  have hlen := fmtIso_length t
+  unfold snapEntry
+  simp only
+  constructor
+  · rw [List.take_left' hlen]; exact parse_iso t hv
+  · have : (fmtIso t ++ ' ' :: rest) = (fmtIso t ++ [' ']) ++ rest := by simp
+    rw [this]; exact List.drop_left' (by simp [hlen])
+
 /-- **log write-then-read is the identity**: for every valid time stamp (year 1000 or later), every
     RSSI text and every frame text -/
 theorem read_write (t : Stamp) (rssi frame : List Char) (hv : t.valid = true) (hy : 1000 ≤ t.dt.year) :
